@@ -407,3 +407,46 @@ add("A3x", "break", CORE, "crosstab", "grouper.agg(values=values, agg_func=aggfu
 add("A8", "break", CORE, "add_row_margin", "    data = data.sort_index()\n", "    from pandas.core.reshape.util import cartesian_product\n    data = data.sort_index()\n", name="A8 import of a helper that pandas 3 removed")
 add("A8", "break", UTIL, "to_arrow", "isinstance(a, pd.core.base.PandasObject)", "isinstance(a, pd.core.base.PandasObjectBase)", name="A8 private attribute path that does not exist")
 add("A8", "keep", CORE, "add_row_margin", "    data = data.sort_index()\n", "    from pandas.api.types import is_scalar\n    data = data.sort_index()\n", name="A8 import of a public pandas name")
+
+# --------------------------------------------------------------------------------------------- E1 E2 E3 U1 U2 F1
+add("E1", "break", EMAS, "ema_grouped", "            alpha = 1 - np.exp(-np.log(2) / halflife)\n", "            alpha = 1 - np.exp(-np.log(2) / int(halflife))\n", name="E1 grouped halflife truncated before alpha")
+add("E1", "break", EMAS, "ema_grouped", "        if times is None:\n            if halflife <= 0:\n                raise ValueError('Halflife must be positive.')\n            alpha = 1 - np.exp(-np.log(2) / halflife)\n        else:\n            halflife = _halflife_to_int(halflife)\n",
+    "        halflife = _halflife_to_int(halflife)\n        if times is None:\n            alpha = 1 - np.exp(-np.log(2) / halflife)\n", name="E1 nanosecond conversion reaches the untimed path")
+add("E1", "break", EMAS, "ema", "alpha = 1 - np.exp(-np.log(2) / halflife)", "alpha = 1 - np.exp(-1 / halflife)", expect_func="*", name="E1 ungrouped entry uses a different conversion")
+add("E1", "keep", EMAS, "ema", "alpha = 1 - np.exp(-np.log(2) / halflife)", "decay = np.log(2) / halflife\n        alpha = 1 - np.exp(-decay)", name="E1 conversion through a local")
+add("E2", "break", EMAS, "_ema_grouped", "            out[i] = last_seen[k]\n", "            out[i] = out[i - 1]\n", name="E2 invalid row repeats the previous ROW, not the group's value")
+add("E2", "break", EMAS, "_ema_grouped_timed", "            out[i] = last_seen[k]\n", "            out[i] = np.nan\n", name="E2 invalid row gets NaN in the timed kernel")
+add("E2", "break", EMAS, "_ema_grouped", "        last_seen[k] = out[i]\n", "", name="E2 carried value never recorded")
+add("E2", "break", EMAS, "_ema_grouped", "        residual_weights[k] *= beta\n        last_seen[k] = out[i]\n", "        residual_weights[k] *= beta\n        if not np.isnan(x):\n            last_seen[k] = x\n", name="E2 carried value is the raw input, not the EMA")
+add("E3", "break", EMAS, "_ema_grouped_timed", "        last_seen_times[k] = times[i]\n", "        if not np.isnan(x):\n            last_seen_times[k] = times[i]\n", name="E3 clock not advanced on invalid rows although the state was decayed")
+add("E3", "break", EMAS, "_ema_grouped_timed", "hl = (times[i] - last_seen_times[k]) / halflife", "hl = (times[i] - times[i - 1]) / halflife", name="E3 elapsed time measured from the previous ROW")
+add("U1", "break", NB, "_cumulative_reduce", "reduce_func(target[last_seen], val, group_count[key])", "reduce_func(target[i - 1], val, group_count[key])", name="U1 running value read from the previous row of any group")
+add("U1", "break", NB, "_cumulative_reduce", "reduce_func(target[last_seen], val, group_count[key])", "reduce_func(target[key], val, group_count[key])", name="U1 running value read at the code position")
+add("U1", "break", NB, "_cumulative_reduce", "    group_last_seen = np.full(ngroups, -1)\n", "    group_last_seen = np.full(ngroups, 0)\n", name="U1 initial last-seen cell points at row 0")
+add("U2", "break", NB, "_cumulative_reduce", "            group_last_seen[key] = i\n", "", name="U2 last-seen row never recorded")
+add("U2", "break", NB, "_cumulative_reduce", "            group_last_seen[key] = i\n", "            if not is_null(val):\n                group_last_seen[key] = i\n", name="U2 last-seen row recorded only for non-null values")
+add("U2", "break", NB, "_cumulative_reduce", "            last_seen = group_last_seen[key]\n", "            last_seen = group_last_seen[key]\n            group_count[key] += 0 * i + 1\n", name="U2 count touched before the mask test", accept_error=True)
+add("F1", "break", FACT, "_monotonic_factorization", "        if x != x:\n            return (i, codes, labels[:n_labels])\n", "", name="F1 null key compared before it is tested")
+add("F1", "break", FACT, "_monotonic_factorization", "    if arr[0] != arr[0]:\n        return (0, codes, labels[:0])\n", "", name="F1 leading null becomes a label")
+add("F1", "break", FACT, "factorize_1d", "pd.factorize(values, use_na_sentinel=True)", "pd.factorize(values, use_na_sentinel=False)", name="F1 pandas route makes NaN a label")
+add("F1", "break", CORE, "GroupBy._factorize_group_key_in_chunks", "codes_list = [mono_codes.astype(np.int64), *codes_list]", "codes_list = [mono_codes, *codes_list]", name="F1 unsigned prefix codes fix the chunked array type", accept_error=True)
+add("F1", "keep", FACT, "_monotonic_factorization", "        if x != x:\n            return (i, codes, labels[:n_labels])\n        if x < prev:\n            return (i, codes, labels[:n_labels])\n", "        if x != x or x < prev:\n            return (i, codes, labels[:n_labels])\n", name="F1 null test merged into the ordering test (tested first)")
+
+# --------------------------------------------------------------------------------------------- A1 must-validate
+PRE = "GroupBy._preprocess_arguments"
+add("A1", "break", CORE, PRE, "        if input_len != len(self):\n            raise ValueError(f'Length of the input values ({input_len}) does not match length of group keys ({len(self)})')\n", "", name="A1 length comparison with the keys deleted", expect_func="*")
+add("A1", "break", CORE, PRE, "            if not self._key_index.equals(common_index):\n                raise ValueError('Pandas index of inputs does not match that of the group keys')\n", "            pass\n", name="A1 index comparison with the keys deleted", expect_func="*")
+add("A1", "break", CORE, PRE, "        if mask is not None and pd.api.types.is_bool_dtype(mask):\n            to_check = [*to_check, mask]\n", "", name="A1 boolean mask no longer validated", expect_func="*")
+add("A1", "break", CORE, PRE, "        common_index = _validate_input_lengths_and_indexes(to_check)\n", "        common_index = _validate_input_lengths_and_indexes(value_list)\n", name="A1 validation runs on the values only", expect_func="*")
+add("A1", "break", CORE, "_validate_input_lengths_and_indexes", "    if len(lengths) > 1:\n        raise ValueError(f'found more than one unique length: {lengths}')\n", "", name="A1 mutual length check deleted", expect_func="*")
+add("A1", "break", CORE, "_validate_input_lengths_and_indexes", "        if not left.equals(right):\n            raise ValueError('Found different indices in the array_inputs')\n", "        pass\n", name="A1 mutual index check deleted", expect_func="*")
+add("A1", "break", CORE, "GroupBy._get_row_selection", "        if len(value_list[0]) != len(self):\n            raise ValueError(f'Length of the input values ({len(value_list[0])}) does not match length of group keys ({len(self)})')\n", "", name="A1 head/tail/nth values not compared with the keys (length)", expect_func="*")
+add("A1", "break", CORE, "GroupBy._get_row_selection", "            if not self._key_index.equals(common_index):\n                raise ValueError('Pandas index of inputs does not match that of the group keys')\n", "            pass\n", name="A1 head/tail/nth values not compared with the keys (index)", expect_func="*")
+add("A1", "break", CORE, "GroupBy.ema", "        if times is not None and len(times) != len(self):\n            raise ValueError(f\"group_key, values, times must have equal length. Got lengths: {{'group_key': {len(self)}, 'values': {len(self)}, 'times': {len(times)}}}\")\n", "", name="A1 ema: times length not checked before re-ordering", expect_func="*")
+add("A1", "break", CORE, "GroupBy.ema", "                if index is not None and (not index.equals(times.index)):\n                    raise ValueError('Pandas index of times does not match that of the group keys / values')\n", "                pass\n", name="A1 ema: times index never compared", expect_func="*")
+add("A1", "break", CORE, "GroupBy.count_ikey", "            if not self._key_index.equals(mask.index):\n                raise ValueError('Pandas index of the mask does not match that of the group keys')\n", "            pass\n", name="A1 count_ikey mask index not compared", expect_func="*")
+add("A1", "break", CORE, "GroupBy.group_nearby_members", "        self._preprocess_arguments(values, None)\n", "", name="A1 group_nearby_members skips validation", expect_func="*")
+add("A1", "break", CORE, "GroupBy.apply", "        value_names, value_list, type_list, common_index = self._preprocess_arguments(values, mask=mask)\n", "        value_list, value_names = convert_data_to_arr_list_and_keys(values)\n        type_list = [v.dtype for v in value_list]\n        common_index = None\n", name="A1 apply skips validation", expect_func="*")
+add("A1", "break", UTIL, "check_data_inputs_aligned", "            if len(set(lengths.values())) > 1:\n                raise ValueError(f'{', '.join(lengths)} must have equal length. Got lengths: {lengths}')\n", "", name="A1 alignment decorator no longer compares lengths", expect_func="*")
+add("A1", "keep", CORE, PRE, "        if input_len != len(self):", "        if len(self) != input_len:", name="A1 comparison operands swapped")
+add("A1", "keep", CORE, PRE, "            if not self._key_index.equals(common_index):", "            if not common_index.equals(self._key_index):", name="A1 index equality mirrored")
